@@ -11,6 +11,40 @@ TITLE = 'Time zone conversions round-trip'
 PROPS = ['Props/C34']
 DISABLED = True
 PROOF_TIMEOUT = 1500
+RULE = ('instants at -2h, -1h-1us, -1h, -1s, -1us, 0, +1us, +1s, +1h-1us, +1h, +2h around transitions (every transition of '
+        'every zone in the thorough tier; all of America/New_York plus 300 random transitions in quick), random '
+        'instants 1900-2040 and far instants (years 2, 9998, +-2^31 s) for every zone; local times at -2h, -1s, -1us, 0, '
+        '+1us, +1s, +2h around both local breakpoints of those transitions (local end of the old interval, local start '
+        'of the new one) and the middle of the gap/overlap, each with favor None, old offset, new offset (sometimes an '
+        'unrelated one); the dates around those transitions and random dates, with and without zone. A case is '
+        'non-trivial when it lies within 2 h (instants) / 26 h (random local times) of a transition; date cases are '
+        'counted non-trivial because they are taken at transitions.')
+TRUSTED = ['py2v translator (harness/py2v.py), extended for subscripts, bisect, Optional ==, early return: validated on '
+           'every run by evaluating the translated Zone._index/_index_dt/offset/dt_offset/offset_untils and the running '
+           'methods on the same arguments',
+           'Model/MomentTz.v: hand model of TzInfo.fromutc/utcoffset, ts_to_dt, dt_to_ts, date_to_ts, ts_to_date over '
+           'integers (datetime arithmetic of CPython: astimezone, +, -, replace), compared with real datetime objects '
+           'on every run',
+           'Lib/PyList.v: py_bisect_right is CPython\'s bisect_right loop; py_getitem yields an arbitrary value `oob` '
+           'where Python raises IndexError (theorems hold for every oob, and C34_subscripts_in_range shows guarded '
+           'subscripts are in range)',
+           'time is exact integers (unit 1/60 us): float rounding of timedelta(seconds=ts)/total_seconds() and of '
+           'utc_to_ts_ms (below 1 us for |t| < 2^32 s, exact at whole seconds) is outside the model; the generator '
+           'refuses data whose untils/offsets are not whole ms or whose float expressions are not exact',
+           'correspondence cases are written as Coq primitive 63-bit integers (Uint63) and converted to Z inside '
+           'vm_compute; no theorem depends on them']
+ASSUMPTIONS = ['zone data = the 594 zones of tzdata.data as moment.Zone holds them at run time (regenerated each run)',
+               'timestamps are exact multiples of 1 us; every integer instant is covered, no range bound']
+TECHNIQUE = ('Coq proof over a model translated from source (py2v) and zone data regenerated from tzdata.data on every '
+             'run (vm_compute over all zones) + differential cases against real datetime objects + impl oracle')
+LEVEL_TEXT = ('Kernel-checked theorems: every bundled zone passes a boolean interval check (vm_compute over the regenerated '
+              'data) that is proved to imply dt_to_ts(ts_to_dt(ts, zone)) = ts for ALL integer instants, that every local '
+              'time (ambiguous, skipped, any favor) gets the offset in effect at the instant it is mapped to or, when '
+              'skipped, the offset starting at the transition whose gap it falls in, and the UTC date round trip; the zoned '
+              'date round trip is refuted on the unchanged code (known finding) and proved under the hypothesis that '
+              'excludes the defect.')
+LEVEL_NOTE = ('Trusted: Coq kernel + vm_compute, py2v translator and the hand-written datetime layer (both validated '
+              'differentially each run), float rounding outside the integer model.')
 
 NSHARDS = 8
 US = _dt.timedelta(microseconds=1)
@@ -360,8 +394,8 @@ def pick_transitions(ctx, zones):
   allp = [(zd, k) for zd in zones for k in range(len(zd.untils))]
   if ctx.tier == 'thorough':
     return allp
-  feat = [(zd, k) for zd in zones if zd.name in FEATURED[:4] for k in range(len(zd.untils))]
-  rest = ctx.rng.sample(allp, min(len(allp), 2500))
+  feat = [(zd, k) for zd in zones if zd.name in FEATURED[:1] for k in range(len(zd.untils))]
+  rest = ctx.rng.sample(allp, min(len(allp), 300))
   return feat + rest
 
 
@@ -405,7 +439,7 @@ def local_instants(ctx, zones, trans):
         pts.add(b + d)
     pts.add((ends[0] + ends[-1]) // 2)
     for l in sorted(pts):
-      favors = [None, e0, e1]
+      favors = [None, e0, e1] if min(abs(l - b) for b in ends) <= H else [None]
       if rnd.random() < 0.1:
         favors.append(rnd.choice([0, 3600 * 1000000, -5 * 3600 * 1000000, 1800 * 1000000]))
       for f in favors:
@@ -439,6 +473,10 @@ def date_cases(ctx, zones, trans):
 IMPORTS = ['Grist.Lib.PyPrelude', 'Grist.Lib.PyList', 'Grist.Model.Moment', 'GristGen.Moment_gen',
            'Grist.Model.MomentTz', 'GristGen.Tzdata_gen']
 EXTRA_DEFS = '''
+From Coq Require Import Uint63.
+(* numerals of the cases are written as primitive 63-bit ints (parsed ~6x faster than Z numerals) *)
+Definition p (x : int) : Z := Uint63.to_Z x.
+Definition n (x : int) : Z := Z.opp (Uint63.to_Z x).
 Definition us (x : Z) : Z := x * 60.
 Definition ous (x : option Z) : option Z := option_map us x.
 Definition chk_utc (z : zone) (c : Z * Z * option Z * Z * Z * Z) : bool :=
@@ -457,47 +495,75 @@ Definition chk_zone (c : zone * list Z * list Z * list Z) : bool :=
   let '(z, u, o, ou) := c in
   andb (py_list_eqb Z.eqb (z_untils z) (map (fun x => x * 60000) u))
   (andb (py_list_eqb Z.eqb (z_offsets z) o) (py_list_eqb Z.eqb (z_offset_untils z) (map (fun x => x * 60000) ou))).
-Definition chk_group {A} (f : zone -> A -> bool) (g : zone * list A) : bool := forallb (f (fst g)) (snd g).
+Inductive acase :=
+| CU (z : zone) (l : list (Z * Z * option Z * Z * Z * Z))
+| CL (z : zone) (l : list (Z * option Z * Z * Z * Z))
+| CD (z : zone) (l : list (Z * Z * Z)).
+Definition chk_any (c : acase) : bool :=
+  match c with
+  | CU z l => forallb (chk_utc z) l
+  | CL z l => forallb (chk_local z) l
+  | CD z l => forallb (chk_date z) l
+  end.
+Close Scope Z_scope.
+Open Scope uint63_scope.
 '''
 GROUP = 40
 
 
+def zl(n):
+  if abs(n) >= 2 ** 62:
+    raise core.TieBroken('value %d does not fit a 63-bit literal' % n)
+  return '(n %d)' % -n if n < 0 else '(p %d)' % n
+
+
+def zll(ns):
+  return core.coq_list([zl(n) for n in ns])
+
+
 def _opt(x):
-  return core.optlit(x, core.zlit)
+  return core.optlit(x, zl)
 
 
 def _tuple(*xs):
   return '(' + ', '.join(xs) + ')'
 
 
+CTOR = {'utc': 'CU', 'local': 'CL', 'dates': 'CD'}
+
+
 def run_grouped(ctx, name, check, items, describe):
-  """items: [(zone_data, coq_tuple_text, payload)]. Groups per zone, evaluates, reports failing payloads."""
-  groups = []
+  """items: [(zone_data, coq_tuple_text, payload)]: grouped per zone and queued; evaluate_groups runs them all."""
   cur = None
   for zd, text, payload in sorted(items, key=lambda it: it[0].name):
-    if cur is None or cur[0] is not zd or len(cur[1]) >= GROUP:
-      cur = (zd, [], [])
-      groups.append(cur)
-    cur[1].append(text)
-    cur[2].append(payload)
-  cases = ['(%s, %s)' % (coq_name(zd.name), core.coq_list(texts)) for zd, texts, _ in groups]
-  bad = ctx.run_cases(name, IMPORTS, 'chk_group %s' % check, cases, shard=250, timeout=900, extra_defs=EXTRA_DEFS)
+    if cur is None or cur[1] is not zd or len(cur[2]) >= GROUP:
+      cur = (name, zd, [], [], describe)
+      ctx._c34['groups'].append(cur)
+    cur[2].append(text)
+    cur[3].append(payload)
   ctx.bump('coq-cases:' + name, len(items))
+
+
+def evaluate_groups(ctx):
+  groups = ctx._c34['groups']
+  term = lambda g, texts: '%s %s %s' % (CTOR[g[0]], coq_name(g[1].name), core.coq_list(texts))
+  bad = ctx.run_cases('all', IMPORTS, 'chk_any', [term(g, g[2]) for g in groups], shard=max(40, len(groups) // 8 + 1),
+                      timeout=1800, extra_defs=EXTRA_DEFS)
   if not bad:
     return
   # second pass: the failing groups one case at a time
   singles = []
   for gi in bad[:6]:
-    zd, texts, payloads = groups[gi]
-    for t, p in zip(texts, payloads):
-      singles.append(('(%s, [%s])' % (coq_name(zd.name), t), zd, p))
-  bad2 = ctx.run_cases(name + '_single', IMPORTS, 'chk_group %s' % check, [c for c, _, _ in singles],
-                       shard=250, timeout=900, extra_defs=EXTRA_DEFS)
+    g = groups[gi]
+    for t, p in zip(g[2], g[3]):
+      singles.append((term(g, [t]), g, p))
+  bad2 = ctx.run_cases('single', IMPORTS, 'chk_any', [c for c, _, _ in singles], shard=250, timeout=900,
+                       extra_defs=EXTRA_DEFS)
   for i in bad2[:5]:
-    _, zd, p = singles[i]
-    ctx.broken('correspondence:%s: model differs from moment.py' % name, describe(zd, p))
+    _, g, p = singles[i]
+    ctx.broken('correspondence:%s: model differs from moment.py' % g[0], g[4](g[1], p))
   if not bad2:
-    ctx.broken('correspondence:%s' % name, 'groups %r fail but no single case does' % (bad[:6],))
+    ctx.broken('correspondence:groups', 'groups %r fail but no single case does' % (bad[:6],))
 
 
 def correspond(ctx):
@@ -505,17 +571,18 @@ def correspond(ctx):
   if len(zones) != ctx.extra.get('zones', len(zones)):
     raise core.TieBroken('zone list changed between regenerate and correspond')
   trans = pick_transitions(ctx, zones)
-  ctx._c34 = {'trans': trans}
+  ctx._c34 = {'trans': trans, 'groups': []}
 
   # the zone objects themselves (offset_untils as the running Zone computed it)
   zsel = zones if ctx.tier == 'thorough' else [z for z in zones if z.name in FEATURED] + ctx.rng.sample(zones, 60)
-  zcases = ['(%s, %s, %s, %s)' % (coq_name(z.name), core.zlist(z.untils), core.zlist(z.offsets),
-                                   core.zlist([int(x) for x in z.zone.offset_untils])) for z in zsel]
+  zcases = ['(%s, %s, %s, %s)' % (coq_name(z.name), zll(z.untils), zll(z.offsets),
+                                   zll([int(x) for x in z.zone.offset_untils])) for z in zsel]
   bad = ctx.run_cases('zones', IMPORTS, 'chk_zone', zcases, shard=80, timeout=900, extra_defs=EXTRA_DEFS)
   for i in bad[:5]:
     ctx.broken('correspondence:zone data: model zone differs from moment.Zone', zsel[i].name)
   ctx.bump('coq-cases:zones', len(zcases))
 
+  ctx.log('zone objects compared (%d)' % len(zcases))
   # instants: ts_to_dt, fromutc's favor, utcoffset, dt_to_ts, _index
   utc = utc_instants(ctx, zones, trans)
   ctx._c34['utc'] = utc
@@ -528,11 +595,12 @@ def correspond(ctx):
       continue
     if not r['back_seconds_ok']:
       ctx.broken('correspondence:dt_to_ts', 'dt_to_ts differs from its own expression at %s %d' % (zd.name, t))
-    items.append((zd, _tuple(core.zlit(t), core.zlit(r['local']), _opt(r['favor']), core.zlit(r['off']),
-                             core.zlit(r['back']), core.zlit(r['index'])), (t, r)))
+    items.append((zd, _tuple(zl(t), zl(r['local']), _opt(r['favor']), zl(r['off']),
+                             zl(r['back']), zl(r['index'])), (t, r)))
     ctx.count(('utc', zd.name, t), nontrivial=near, kind='instant-near-transition' if near else 'instant-far',
               sample={'zone': zd.name, 't_us': t, 'local_us': r['local'], 'utcoffset_us': r['off'],
                       'back_us': r['back']})
+  ctx.log('utc instants: %d implementation runs done' % len(items))
   run_grouped(ctx, 'utc', 'chk_utc', items,
               lambda zd, p: 'zone %s instant %d us: implementation gives %r' % (zd.name, p[0], p[1]))
 
@@ -550,9 +618,10 @@ def correspond(ctx):
     if r['off'] != r['off_tzinfo'] or not r['ts_ok']:
       ctx.broken('correspondence:utcoffset', 'TzInfo.utcoffset/dt_to_ts differ from Zone.dt_offset at %s %d %r: %r' % (
         zd.name, l, f, r))
-    items.append((zd, _tuple(core.zlit(l), _opt(f), core.zlit(r['index']), core.zlit(r['off']), core.zlit(r['ts_us'])),
+    items.append((zd, _tuple(zl(l), _opt(f), zl(r['index']), zl(r['off']), zl(r['ts_us'])),
                   (l, f, r)))
     ctx.count(('local', zd.name, l, f), nontrivial=near, kind='local-near-transition' if near else 'local-far')
+  ctx.log('local times: %d implementation runs done' % len(items))
   run_grouped(ctx, 'local', 'chk_local', items,
               lambda zd, p: 'zone %s local %d us favor %r: implementation gives %r' % (zd.name, p[0], p[1], p[2]))
 
@@ -571,16 +640,19 @@ def correspond(ctx):
       continue
     t_us = round(ts * 1000000)
     back = (got.date() - m.DATE_EPOCH).days
-    items.append((zd, _tuple(core.zlit(day), core.zlit(t_us), core.zlit(back)), (day, ts, back)))
+    items.append((zd, _tuple(zl(day), zl(t_us), zl(back)), (day, ts, back)))
     ctx.count(('date', zd.name, day), nontrivial=True, kind='date')
+  ctx.log('dates: %d implementation runs done' % len(items))
   run_grouped(ctx, 'dates', 'chk_date', items,
               lambda zd, p: 'zone %s day %d: implementation gives ts %r, date %d' % (zd.name, p[0], p[1], p[2]))
+  evaluate_groups(ctx)
 
 
 # ---------------------------------------------------------------------------------------------
 # search: the property's own oracle on the implementation
 
 def search(ctx):
+  ctx.log('correspondence done; search starts')
   zones = zone_data()
   st = getattr(ctx, '_c34', None) or {}
   trans = st.get('trans') or pick_transitions(ctx, zones)
